@@ -89,6 +89,7 @@ function runOnce(script, job, run) {
   let inTurn = false;
   const pendingCbs = (job.callbacks || run.callbacks || []).map((c, i) => Object.assign({ idx: i }, c));
   const cbResults = [];
+  const sharedObjs = {};
 
   function tick() {
     dateCalls++;
@@ -181,9 +182,17 @@ function runOnce(script, job, run) {
     bump('callbacks');
     const rec = { n: seq++, t: turns, cb: cb.idx, fn: cb.fn };
     hist.push({ n: rec.n, t: turns, a: ['cb', cb.idx, 'inv'] });
+    let args = cb.args || [];
+    if (cb.shared) {
+      // the same JavaScript object is handed to every call, mutated in between (created inside the sandbox)
+      if (!sharedObjs[cb.shared]) sharedObjs[cb.shared] = vm.runInContext('({n: 0})', ctx);
+      const o = sharedObjs[cb.shared];
+      o.n++; o['k' + o.n] = o.n;
+      args = [o, o, cb.idx];
+    }
     guard(() => {
       try {
-        const r = fn.apply(undefined, cb.args || []);
+        const r = fn.apply(undefined, args);
         rec.ret = r === undefined ? null : JSON.parse(JSON.stringify(r));
       } catch (e) {
         if (e instanceof SimExit) throw e;
